@@ -10,7 +10,7 @@ prop("C04", pkg="c04",
           "so that the remaining clauses are still exercised. Non-trivial = at least one value of the case encodes >= 2 top-level fields; "
           "distinct = FNV-64 of the serialised case (type descriptor, recipes, schedule).",
      quick=dict(shards=16, scale=1, timeout=600),
-     thorough=dict(shards=16, scale=12, timeout=3000),
+     thorough=dict(shards=16, scale=4, timeout=3000),
      technique="property-based testing (rapid) with generated Go struct types: round trip, reused-vs-fresh codec and cross-protocol metamorphic oracles under a "
                "reflection-based equality modulo nil/empty collections",
      level_text="Exploration: ~0.19 M generated (type, values, codec schedule) cases per quick run (~2.3 M thorough) are round-tripped through all three protocols "
